@@ -3,7 +3,9 @@
 A case configures ONE real device (Switch or BinarySensor) on a real XKNX with a stub interface on the
 virtual-time loop and replays a telegram history:
   events: [op, value, gap_us]   op in tw (GroupValueWrite in) / tr (GroupValueResponse in) /
-                                api (Switch.set_on / set_off) / q (sample only)
+                                api (Switch.set_on / set_off) / q (sample only) /
+                                ig  a telegram the device must ignore; value = index into IGNORED (undecodable payloads
+                                    as write or response, GroupValueRead)
 The harness lets the loop go quiescent before each injection (timers due at t fire before an input at t),
 records inputs, device callbacks (state, counter), bus writes of the Switch and a state sample after every
 event, all with virtual times in µs.  The Lean monitor `c42 monitor` must accept the trace; `oracle`
@@ -12,11 +14,12 @@ restates the property on the trace without the model.
 from harness import devsim
 from harness.devsim import GRID
 from xknx.devices import BinarySensor, Switch
-from xknx.dpt import DPTBinary
+from xknx.dpt import DPTArray, DPTBinary
 from xknx.telegram.apci import GroupValueWrite
 
 PROPERTY = "C42"
-RULE = ("on/off telegram histories (<=25 telegrams; GroupValueWrite/Response, Switch API calls, extra samples) with gaps from "
+RULE = ("on/off telegram histories (<=25 telegrams; GroupValueWrite/Response, Switch API calls, extra samples, 15% telegrams the device "
+        "must ignore: 7 undecodable payloads as write/response and GroupValueRead) with gaps from "
         "{0, 1/64 s, R-e, R, R+e, C-e, C, C+e, R/2, C/2, 3R, 3C, |R-C|} (e = 1/64 s) x device in {Switch, BinarySensor} x "
         "reset_after in {None, 0, 0.5 s, 1 s, 2 s} x context_timeout in {0, 0.25 s, 0.5 s, 1 s} x ignore_internal_state x "
         "always_callback x invert; fixed scripts for every configuration first. non-trivial = at least one timer fired "
@@ -27,6 +30,10 @@ TRUSTED = ["model XknxVerif.Model.BinaryTimers is a hand-written monitor; tied t
            "a timer is due but before it fires is not generated"]
 CASE_TIMEOUT = 10.0
 GA = "1/2/3"
+
+# telegrams on the device's group address that must change nothing: RemoteValueSwitch decodes only payload value 0 / 1
+IGNORED = [("write", DPTArray((1, 2, 3))), ("write", DPTBinary(3)), ("write", DPTArray((1,))), ("write", DPTArray((0,))),
+           ("response", DPTArray((1,))), ("response", DPTBinary(63)), ("response", DPTArray(())), ("read", None)]
 
 RESETS = [None, 0, 500_000, 1_000_000, 2_000_000]
 CTXS = [0, 250_000, 500_000, 1_000_000]
@@ -60,6 +67,11 @@ def scripts(kind, reset, ctx):
     yield [[tel, 1, 0], ["q", 0, R - E], ["q", 0, E], ["q", 0, E], [tel, 1, R], [tel, 1, R - E], [tel, 1, R], ["q", 0, 3 * R + E]]
     yield [[tel, 1, 0], [tel, 0, R // 2], ["q", 0, R // 2], ["tr", 1, E], ["tr", 1, R + E], ["tr", 0, E], ["tr", 1, 0], ["q", 0, 3 * R]]
     yield [[tel, 1, 0], [tel, 1, C - E], [tel, 0, C - E], [tel, 1, 0], [tel, 1, C], [tel, 0, C + E], [tel, 0, E], ["q", 0, 3 * C + 3 * R]]
+    # telegrams that must be ignored, inside and outside the reset window / the counter window
+    yield [[tel, 1, 0], ["ig", 0, R // 2], ["ig", 1, R // 2 - E], ["q", 0, E], ["ig", 7, E], [tel, 1, R], ["ig", 2, E], ["ig", 4, R - 2 * E],
+           ["q", 0, E], ["ig", 5, 0], ["q", 0, 3 * R]]
+    yield [[tel, 1, 0], ["ig", 3, C - E], [tel, 1, E], ["ig", 6, C // 2], ["ig", 0, C // 2], ["q", 0, E], [tel, 0, 3 * C], ["ig", 1, E],
+           ["tr", 1, C + E], ["ig", 7, C - E], ["q", 0, 3 * C + 3 * R]]
     if kind == "s":
         yield [["api", 1, 0], ["api", 1, R - E], ["api", 0, E], ["q", 0, R], ["api", 1, 0], [tel, 0, R // 2], ["q", 0, R], ["api", 0, 0], ["q", 0, R]]
 
@@ -93,6 +105,9 @@ def generate(rng, tier):
         evs = []
         for _ in range(rng.randint(1, 25)):
             r = rng.random()
+            if rng.random() < 0.15:
+                evs.append(["ig", rng.randrange(len(IGNORED)), rng.choice(gaps) if rng.random() < 0.9 else rng.randrange(0, 200) * E])
+                continue
             if kind == "s" and r < 0.25:
                 op = "api"
             elif r < 0.12:
@@ -151,6 +166,10 @@ async def _scenario(sim, case):
         elif op == "api":
             sim.rec(op, v, sim.now())
             await (dev.set_on() if v else dev.set_off())
+        elif op == "ig":
+            kind, payload = IGNORED[v % len(IGNORED)]
+            sim.rec("ig", sim.now())
+            sim.incoming(GA, payload, kind)
         await sim.loop.settle()
         sim.rec("q", _st(dev.state), getattr(dev, "counter", None) or 0, sim.now())
     await sim.loop.settle()
